@@ -325,6 +325,17 @@ theorem octree_queries_eq_scan_of_input (ps : List (Prim ℝ)) (depth : Nat)
   exact ⟨(hp.filter _).map _, (hp.filter _).map _, (hp.filter _).map _⟩
 
 
+
+/-- `traverse_visits_all_hits`: with a callback that records the index and leaves the range alone,
+    `TraverseIntersectingRay` visits exactly the elements `ElementsIntersectingRay` returns, in the same order
+    (hence, by `rayElements_eq_scan`, exactly the exhaustive scan on a `Covers` tree). -/
+theorem traverse_visits_all_hits (t : Oct Box (Elem ℝ)) (o d : P3) (mn mx : ℝ) :
+    traverseIntersectingRay t o d mn mx = elementsIntersectingRay t o d mn mx := by
+  unfold traverseIntersectingRay elementsIntersectingRay
+  rw [traverse_eq_pruned (fun (b : Box) lo hi => intersectsRayInRange b o d lo hi)
+    (fun (e : Elem ℝ) lo hi => intersectsRayInRange e.box o d lo hi) Elem.id (mn, mx) t []]
+  simp
+
 /-! ### BVH: `BVHNode.Hit` = `HitList.Hit` -/
 
 variable {H : Type}
